@@ -181,7 +181,64 @@ pub fn known_for_build(v: &Viol) -> Option<&'static str> {
     if (d == "cl23" || d == "cl23.1" || d == "cl24") && opts.contains("opt=1") && code_has_const_path_into_atom(&code) {
         return Some("cl23-constant-folds-path-into-atom");
     }
+    // CSE hoists a repeated partial operation above the conditions that guard it.  Excused only
+    // when (1) cl23+ with optimize on, (2) the optimised program FAILS (never a wrong value),
+    // (3) some function or the main expression contains a partial operation (f r / % divmod
+    // substr) that occurs at least twice, and (4) the unoptimised build of the same dialect
+    // returns the expected value on the same arguments.
+    if (d == "cl23" || d == "cl23.1" || d == "cl24") && opts.contains("opt=1") && (v.sig.starts_with("compiled-fails") || v.sig.starts_with("optimised-build-fails") || v.sig.starts_with("entry-code-fails")) && source_has_repeated_partial_op(src) {
+        let sigil = Dialect::parse(d)?.sigil();
+        let args = v.case.get("args_hex").and_then(|h| h.as_str()).and_then(|h| hex::decode(h).ok()).and_then(|b| sut::consensus_deserialize(&b).ok());
+        let want = v.case.get("expected_hex").and_then(|h| h.as_str()).and_then(|h| hex::decode(h).ok()).and_then(|b| sut::consensus_deserialize(&b).ok());
+        if let (Some(args), Some(want)) = (args, want) {
+            let unopt = sut::compile_modern(src, sigil, ModernOpts { optimize: false, frontend_opt: opts.contains("fe=1"), post_opt: false }, "*verif*.clsp", &[]).ok()?;
+            if sut::run_consensus(&unopt.code, &args, RUN_COST).ok().as_ref() == Some(&want) {
+                return Some("cl23-cse-hoists-partial-operation-above-its-guard");
+            }
+        }
+    }
     None
+}
+
+/// does some top-level form of the source contain a partial operation (f, r, /, %, divmod,
+/// substr applied to something) that occurs textually at least twice?
+pub fn source_has_repeated_partial_op(src: &str) -> bool {
+    use chialisp::compiler::sexp::SExp;
+    use std::borrow::Borrow;
+    fn collect(s: &SExp, out: &mut Vec<String>) {
+        if let SExp::Cons(_, h, t) = s {
+            if let SExp::Atom(_, name) = h.borrow() {
+                if matches!(name.as_slice(), b"f" | b"r" | b"/" | b"%" | b"divmod" | b"substr") {
+                    out.push(s.to_string());
+                }
+            }
+            collect(h.borrow(), out);
+            collect(t.borrow(), out);
+        }
+    }
+    let Ok(forms) = chialisp::compiler::sexp::parse_sexp(sut::loc(), src.bytes()) else {
+        return false;
+    };
+    for f in forms {
+        // each element of the mod form separately (helpers, main expression)
+        let mut cur: std::rc::Rc<SExp> = f;
+        loop {
+            let next = match cur.borrow() {
+                SExp::Cons(_, h, t) => {
+                    let mut v = vec![];
+                    collect(h.borrow(), &mut v);
+                    v.sort();
+                    if v.windows(2).any(|w| w[0] == w[1]) {
+                        return true;
+                    }
+                    t.clone()
+                }
+                _ => break,
+            };
+            cur = next;
+        }
+    }
+    false
 }
 
 /// AST-level reduction of a failing (program, args) for one build
